@@ -21,6 +21,15 @@ def _fails(mod, trace, want):
     return True
 
 
+def _safe(gen):
+    """a candidate generator that trips over an unusual trace ends the search for candidates, not the minimisation"""
+    try:
+        for x in gen:
+            yield x
+    except Exception:
+        return
+
+
 def minimise(mod, trace, violation, wall_cap=60.0):
     t0 = time.monotonic()
     want = {'cls': violation['cls'], 'sig': mod.signature(trace, violation)}
@@ -63,7 +72,7 @@ def minimise(mod, trace, violation, wall_cap=60.0):
     progress = True
     while progress and not out_of_time():
         progress = False
-        for cand in mod.shrink_candidates(best):
+        for cand in _safe(mod.shrink_candidates(best)):
             if out_of_time():
                 break
             if mod.size(cand) >= mod.size(best):
